@@ -47,15 +47,15 @@ def expected_from_impl(line):
     if r["cls"] == "BUDGET":
         return None
     if r["cls"] == "ABORT":
-        return "X ABORT"
+        return "X ABORT"      # (a stack overflow is routed to the model's excluded-class test by the runner)
     if r["cls"] == "LEXERR":
-        return "LEXERR " + r["rest"].replace(" RENDERPANIC", "")
+        return "LEXERR " + r["rest"].replace(" RENDERPANIC", "").replace(" BADSPAN", "")
     if r["cls"] == "PARSEERR":
-        return "PARSEERR " + r["rest"].replace(" RENDERPANIC", "")
+        return "PARSEERR " + r["rest"].replace(" RENDERPANIC", "").replace(" BADSPAN", "")
     if r["cls"] == "OK":
         return "OK " + r["outhex"]
     if r["cls"] == "RT":
-        return "RT:%s:%s %s" % (r["code"], ":".join(s for s in r["spans"] if s != "RENDERPANIC"), r["outhex"])
+        return "RT:%s:%s %s" % (r["code"], ":".join(s for s in r["spans"] if s not in ("RENDERPANIC", "BADSPAN")), r["outhex"])
     if r["cls"] == "EXIT":
         return "EXIT " + r["outhex"]
     if r["cls"] == "PANIC":
@@ -67,6 +67,8 @@ def crash_oracle(line, allow_exit=True):
     """C10's direct oracle: the run ended normally, with a runtime diagnostic, or at a wall"""
     r = parse_run(line)
     if r["cls"] == "ABORT":
+        if "STACKOVERFLOW" in (r["raw"] or ""):
+            return None               # decided by the model: see runner.evaluate (excluded_obs)
         return "the process aborted (%s)" % r["raw"]
     if r["cls"] == "PANIC":
         return "the run panicked: %s" % r.get("msg", "")[:200]
@@ -74,6 +76,8 @@ def crash_oracle(line, allow_exit=True):
         return "unexpected termination at a wall"
     if "RENDERPANIC" in (r["raw"] or ""):
         return "rendering the diagnostic panicked"
+    if "BADSPAN" in (r["raw"] or ""):
+        return "a diagnostic labels a byte range that cannot be read from the source text it names"
     return None
 
 
